@@ -2,6 +2,9 @@
 """import confirmed sub-agent mutants from a scratch worktree into /verif/seeded/<prop>-<mN>/"""
 import sys, os, shutil, json, glob, re
 wt, prop, confirm_log = sys.argv[1], sys.argv[2], sys.argv[3]
+# new changes get the next free numbers of the property
+existing = [int(re.search(r'-m(\d+)$', d).group(1)) for d in glob.glob('/verif/seeded/%s-m*' % prop)]
+next_id = max(existing + [0]) + 1
 lines = [l.strip() for l in open(confirm_log) if l.startswith(wt + ' ')]
 for m in ('m1', 'm2'):
     line = [l for l in lines if l.startswith('%s %s:' % (wt, m))]
@@ -11,10 +14,10 @@ for m in ('m1', 'm2'):
     ok = re.search(r'clean_demo_rc=0 mutant_demo_rc=([1-9]\d*) make_check=\[#PASS:1#FAIL:0#ERROR:0#PASS:18#FAIL:0#ERROR:0\]', line)
     if not ok:
         print('NOT confirmed:', line); continue
-    d = '/verif/seeded/%s-%s' % (prop, m)
+    d = '/verif/seeded/%s-m%d' % (prop, next_id); next_id += 1
     os.makedirs(d, exist_ok=True)
     shutil.copy(os.path.join(wt, 'mutants', m + '.diff'), os.path.join(d, 'patch.diff'))
-    for f in glob.glob(os.path.join(wt, 'mutants', m + '_demo.*')) + glob.glob(os.path.join(wt, 'mutants', '*.h')):
+    for f in glob.glob(os.path.join(wt, 'mutants', m + '_demo.*')) + glob.glob(os.path.join(wt, 'mutants', '*.h')) + glob.glob(os.path.join(wt, 'mutants', m + '_build.sh')) + glob.glob(os.path.join(wt, 'mutants', m + '_*.c')) + glob.glob(os.path.join(wt, 'mutants', m + '_*.py')):
         if not f.endswith('.log'):
             shutil.copy(f, d)
     readme = open(os.path.join(wt, 'mutants', m + '_README.txt'), errors='replace').read()
